@@ -70,12 +70,16 @@ func (C17Mon) After(w *core.World, st *core.Step) {
 			}
 		}
 		c.Oracle("C17.staged-ignored")
-		for p := range idx1 {
-			if _, was := idx0[p]; was {
+		for p, id := range idx1 {
+			if old, was := idx0[p]; was && old == id {
 				continue
 			}
 			if ir.Ignored(p) == "yes" {
-				w.Fail("C17.staged-ignored", "ignored-path-staged", trig, "%s staged %q which .goitignore excludes (%s)", st.String(), p, ruleKinds(ir))
+				sym := "ignored-path-staged"
+				if _, was := idx0[p]; was {
+					sym = "ignored-tracked-path-restaged"
+				}
+				w.Fail("C17.staged-ignored", sym, trig, "%s staged %q which .goitignore excludes (%s)", st.String(), p, ruleKinds(ir))
 			}
 		}
 	case "status":
@@ -93,6 +97,13 @@ func (C17Mon) After(w *core.World, st *core.Step) {
 				w.Fail("C17.status-lists", "goit-path-listed", trig, "status lists %q", p)
 			} else if _, tr := idx0[p]; !tr && ir.Ignored(p) == "yes" {
 				w.Fail("C17.status-lists", "ignored-path-listed", trig, "status lists ignored %q (%s)", p, ruleKinds(ir))
+			}
+		}
+		for p, lab := range rep.NotStaged {
+			// an excluded path that still exists on disk is never listed in the working-tree report,
+			// even if it was tracked before the rule was written
+			if lab == "modified" && ir.Ignored(p) == "yes" {
+				w.Fail("C17.status-lists", "ignored-tracked-path-listed", trig, "status lists %q as modified although .goitignore excludes it (%s)", p, ruleKinds(ir))
 			}
 		}
 		c.Oracle("C17.hidden-without-ignore")
@@ -200,6 +211,27 @@ func runC17(c *core.Ctx) {
 			if i == steps/2 {
 				k.goit("add", ".")
 				k.goit("commit", "-m", k.message())
+				if w.Hist%4 == 1 {
+					// rules written AFTER the paths were tracked: excluded paths must still never be re-staged or listed
+					tr := k.tracked()
+					var lines []string
+					if p, ok := k.pick(tr); ok {
+						if i := strings.LastIndex(p, "."); i > strings.LastIndex(p, "/")+1 {
+							lines = append(lines, "*"+p[i:])
+						} else if j := strings.Index(p, "/"); j > 0 {
+							lines = append(lines, p[:j]+"/")
+						}
+					}
+					if len(lines) > 0 {
+						w.Write(".goitignore", []byte(strings.Join(lines, "\n")+"\n"))
+						for _, p := range tr {
+							if k.chance(60) {
+								w.Write(p, k.content())
+							}
+						}
+						k.goit("status")
+					}
+				}
 				k.goit("add", ".")
 				k.goit("status")
 				if k.reflogLen() > 0 {
@@ -411,6 +443,39 @@ func runC06CLI(c *core.Ctx) {
 				if !okSel {
 					w.Fail("C06.cli-addressable", "add-selects-wrong-set", trig, "add %q (all files deleted) with tracked %v unstaged %v, should unstage %v (exit %d)", q, gitfmt.SortedKeys(idx0), gone, want, st.Exit)
 				}
+			}
+		}
+	})
+}
+
+// random histories of add/rm/restore/reset: every rewrite of .goit/index is decoded and checked
+func runC06Histories(c *core.Ctx) {
+	n := c.Pick(200, 2000)
+	mons := func() []core.Monitor { return []core.Monitor{C06Mon{}} }
+	c.RunHistories(n, mons, func(w *core.World) {
+		w.Hist += 1_000_000
+		wts := map[string]int{
+			"edit-new": 10, "edit-mod": 8, "edit-rm": 4, "edit-rmdir": 2,
+			"add": 16, "add-all": 2, "rm": 8, "commit": 6, "commit-all": 3,
+			"restore-staged": 8, "reset": 10, "restore": 2, "ls-files": 6, "switch-c": 1,
+		}
+		k := NewWalker(w, gen.NameOpts{Space: true, Meta: w.Hist%2 == 0, NonASCII: w.Hist%3 == 0, MaxDepth: 4, N: 7}, wts)
+		k.Hostile = 4
+		k.Init()
+		for i, p := range k.Pool {
+			if i >= 6 {
+				break
+			}
+			w.Write(p, k.content())
+		}
+		k.Do("commit-all")
+		w.Write(k.freshPath(), k.content())
+		k.Do("commit-all")
+		steps := c.Pick(36, 40)
+		for i := 0; i < steps; i++ {
+			k.Step()
+			if st := w.Steps[len(w.Steps)-1]; st.Cmd() == "reset" || st.Cmd() == "rm" {
+				k.goit("ls-files", "-s")
 			}
 		}
 	})
